@@ -22,6 +22,7 @@ func init() {
 			{ID: "C09.2", Desc: "agreements: keyer, normaliser, heuristic table, codec", Run: ruleC09_2, MinSites: 4},
 			{ID: "C09.3", Desc: "file name is a pure function of the key", Run: ruleC09_3, MinSites: 1},
 			{ID: "C09.4", Desc: "the id looked up is the id stored", Run: ruleC09_4, MinSites: 2},
+			{ID: "C09.9", Desc: "every URI key gets a usable file name (the component limit is tested on the encoded name), so long URIs are stored too", Run: func(c *Ctx) { ruleC14_7(c); renameRule(c, "C14.7", "C09.9") }, MinSites: 1},
 			{ID: "C09.8", Desc: "the variant list read is the list handed to the miss/hit/store paths", Run: func(c *Ctx) { ruleIndexHandedOn(c, "C09.8") }, MinSites: 1},
 			{ID: "C09.7", Desc: "Expires-based lifetime is Expires minus Date (a shorter lifetime makes fresh entries miss)", Run: func(c *Ctx) { ruleExpiresMinusDate(c, "C09.7") }, MinSites: 1},
 			{ID: "C09.6", Desc: "values written to the JSON index survive the encoding (else the variant is never selected again)", Run: func(c *Ctx) { ruleIndexValuesUTF8Safe(c, "C09.6") }, MinSites: 1},
@@ -383,4 +384,44 @@ func ruleIDPure(c *Ctx, rule string) {
 	}
 	sort.Strings(names)
 	c.Pass(rule, "id-function", d, names...)
+	// and nothing else: the key the entry is written under has the id function's result as its only source (an id taken
+	// over from an existing index record, for instance, is the id of whatever variant that record described)
+	d2 := "the entry key is the id function's result on every path (never an id read from an existing record)"
+	other := ""
+	instrsOf(sr, func(in ssa.Instruction) {
+		if !c.An.CallsRole(in, "writeEntry") {
+			return
+		}
+		_, args := recvAndArgs(callOf(in))
+		c.P.TraceBack(args[0], TraceOpts{NoParams: true, NoHeapFields: true}, func(v ssa.Value, _ []int) bool {
+			switch y := v.(type) {
+			case *ssa.Call:
+				return false // the id function (checked above)
+			case *ssa.Phi:
+				return true
+			case *ssa.UnOp:
+				if _, isCell := y.X.(*ssa.Alloc); isCell {
+					return true
+				}
+				if fa, ok := y.X.(*ssa.FieldAddr); ok {
+					if _, local := c.An.canon(fa.X).(*ssa.Alloc); local {
+						return true
+					}
+					other = fmt.Sprintf("%s `%s` (a load of %s)", c.P.InstrPos(y), y.String(), fieldName(fa.X.Type(), fa.Field))
+					return false
+				}
+				other = fmt.Sprintf("%s `%s`", c.P.InstrPos(y), y.String())
+				return false
+			case *ssa.Const, *ssa.Parameter:
+				other = fmt.Sprintf("%s `%s`", c.P.Pos(v.Pos()), v.String())
+				return false
+			}
+			return true
+		})
+	})
+	if other != "" {
+		c.Fail(rule, "id-only-from-function", d2, c.P.ShortName(sr)+": the key can also be "+other+"; after the origin changed its Vary, a record for {X-Device: phone} points at the key of {Accept-Language: de}, and whoever matches the former is served the latter")
+	} else {
+		c.Pass(rule, "id-only-from-function", d2, c.P.ShortName(sr))
+	}
 }
